@@ -76,6 +76,12 @@ class Shim:
         return seq[CH.choose(len(seq))]
 
     def sample(self, population, k, *, counts=None):
+        # like the stdlib: the population must be a sequence (dict views and sets are refused since Python 3.11)
+        from collections.abc import Sequence
+        if not isinstance(population, Sequence):
+            raise TypeError("Population must be a sequence.  For dicts or sets, use sorted(d).")
+        if not 0 <= k <= len(population):
+            raise ValueError("Sample larger than population or is negative")
         # choose among the identity-distinct remaining elements (the evaluator samples from repeated iterator objects)
         groups = {}
         for p in population:
@@ -277,6 +283,19 @@ def one(rec, R, nd, det, abn, orders, text, doc, max_leaves, exhaustive):
         return
     ast = abn.ast(text)
     rec.wal({"query": text, "document": D.short(doc, 400)})
+    # an abandoned traversal of the same query text on the same environment must not leak into the runs that follow
+    try:
+        CH.rand = _random.Random(R.getrandbits(32))
+        other = [[["x"], {"y": [1]}], {"z": [[2]]}]
+        nd.find_one(text, other)
+        it = iter(nd.finditer(text, other))
+        next(it, None)
+        del it
+    except Exception:  # noqa: BLE001
+        pass
+    finally:
+        CH.rand = None
+    q = nd.compile(text)
     try:
         with guard(240):
             if exhaustive:
